@@ -17,11 +17,12 @@ PROPERTIES = ['DecAppendOnly', 'UnlockOnlyOnLaterPolka', 'ReplayRestoresVotes']
 ACTION_GOALS = {'NoUnlock', 'NoRelock', 'NoRestartMidHeight', 'ReplayRestores', 'ReplayRestoresVotes'}
 
 
-def proposer_tables(ctx, power, max_h, max_r):
+def proposer_tables(ctx, power, max_h, max_r, next_power=None):
     """Ask the real code (csim tables) for LiveProp/StaleProp."""
     fd, p = tempfile.mkstemp(suffix='.json')
     with os.fdopen(fd, 'w') as f:
-        json.dump({'Power': power, 'MaxHeight': max_h, 'MaxRound': max_r}, f)
+        json.dump({'Power': power, 'MaxHeight': max_h, 'MaxRound': max_r,
+                   'NextPower': {str(k): v for k, v in (next_power or {}).items()}}, f)
     try:
         out = subprocess.run([os.path.join(engine.HARNESS, engine.BIN, 'csim'), 'tables', p], stdout=subprocess.PIPE,
                              stderr=subprocess.PIPE, text=True, timeout=120, env=engine.GOENV)
@@ -40,7 +41,7 @@ class Cfg:
     """One TLC configuration of Tendermint.tla."""
 
     def __init__(self, name, power, byz, max_round=1, max_height=1, nbyz=1, budget=0, crashes=0, crash_set=(),
-                 own_first=True, useful_only=True, sync=False, torn=False, spec='Spec', deadlock=False, invariants=None, properties=None, constraint=True, extra_defs=''):
+                 own_first=True, useful_only=True, next_power=None, sync=False, torn=False, spec='Spec', deadlock=False, invariants=None, properties=None, constraint=True, extra_defs=''):
         self.name = name
         self.power = power
         self.byz = sorted(byz)
@@ -52,6 +53,7 @@ class Cfg:
         self.crash_set = sorted(crash_set)
         self.own_first = own_first
         self.useful_only = useful_only
+        self.next_power = next_power or {}   # {height: [powers]} validator-set changes
         self.sync = sync
         self.torn = torn
         self.spec = spec
@@ -64,6 +66,8 @@ class Cfg:
 
     def driver_cfg(self):
         d = {'Power': self.power, 'Byz': self.byz, 'MaxRound': self.max_round, 'MaxHeight': self.max_height}
+        if self.next_power:
+            d['NextPower'] = {str(k): v for k, v in self.next_power.items()}
         if self.tables:
             d.update(self.tables)
         return d
@@ -71,7 +75,7 @@ class Cfg:
     def write(self, ctx, d):
         """Write MC_gen.tla / MC_gen.cfg into directory d (a scratch copy of the spec dir)."""
         if self.tables is None:
-            self.tables = proposer_tables(ctx, self.power, self.max_height + 1, self.max_round)
+            self.tables = proposer_tables(ctx, self.power, self.max_height + 1, self.max_round, self.next_power)
         live, stale = self.tables['LiveProp'], self.tables['StaleProp']
         n = len(self.power)
         mod = ['---- MODULE MC_gen ----', 'EXTENDS Tendermint',
@@ -82,10 +86,11 @@ class Cfg:
                'MCLive == [h \\in 1..%d |-> [r \\in 0..%d |-> LiveT[h][r + 1]]]' % (len(live), self.max_round),
                'MCStale == [h \\in 1..%d |-> StaleT[h]]' % len(stale),
                'MCBudget == %d' % self.budget,
+               'MCNextPower == ' + ('<<>>' if not self.next_power else '(' + ' @@ '.join('%d :> [i \\in 1..%d |-> %s[i]]' % (k, n, tla_seq(v)) for k, v in sorted(self.next_power.items())) + ')'),
                self.extra_defs, '====']
         with open(os.path.join(d, 'MC_gen.tla'), 'w') as f:
             f.write('\n'.join(mod) + '\n')
-        cfg = ['SPECIFICATION ' + self.spec, 'CONSTANTS', '  N = %d' % n, '  Power <- MCPower',
+        cfg = ['SPECIFICATION ' + self.spec, 'CONSTANTS', '  N = %d' % n, '  Power <- MCPower', '  NextPower <- MCNextPower',
                '  Byz = {%s}' % ', '.join(map(str, self.byz)), '  MaxRound = %d' % self.max_round,
                '  MaxHeight = %d' % self.max_height, '  LiveProp <- MCLive', '  StaleProp <- MCStale',
                '  NByzVals = %d' % self.nbyz, '  ByzBudget <- MCBudget', '  MaxCrashes = %d' % self.crashes,
